@@ -112,6 +112,24 @@ pub fn run(s: &mut Session, ctx: &Ctx) {
             }
         }
         s.check(mine < best + 1.0, "within-1.0-of-closest", "AnsiColor::to_ansi_8bit", inp, || format!("code {} at {:?}, closest is {} at {:?}", code, mine, best_code, best));
+        // the same with distances from an independent transcription of the Sharma-Wu-Dalal formula (the
+        // library's own ciede2000 is what to_ansi_8bit minimises, so it cannot judge itself); 0.001 is
+        // the agreement C11 allows between the two
+        let l3 = [lab.l, lab.a, lab.b];
+        let mut sbest = f64::MAX;
+        let mut sbest_code = 0u8;
+        let mut smine = f64::NAN;
+        for (pc, pl) in &palette {
+            let d = crate::sharma::ciede2000(l3, [pl.l, pl.a, pl.b]);
+            if d < sbest {
+                sbest = d;
+                sbest_code = *pc;
+            }
+            if *pc == code {
+                smine = d;
+            }
+        }
+        s.check(smine < sbest + 1.0 + 0.001, "within-1.0-of-closest-by-independent-ciede2000", "AnsiColor::to_ansi_8bit", inp, || format!("code {} at {:?}, closest is {} at {:?} (Sharma-Wu-Dalal formula)", code, smine, sbest_code, sbest));
         // painted output: the 8-bit sequences of a style (foreground and background) and the colour's
         // own sequence carry exactly this code - never a system colour
         let seqs = guard(|| {
